@@ -18,6 +18,7 @@ mod syntax;
 mod reader;
 mod session;
 mod knowledge;
+mod repl;
 mod timer;
 mod gentrace;
 mod genunify;
@@ -51,6 +52,7 @@ pub fn props_of(case: &Value) -> Vec<&'static str> {
         "reader" => reader::props_of(case),
         "session" => session::props_of(case),
         "knowledge" => knowledge::props_of(case),
+        "repl" => repl::props_of(case),
         "timer" => timer::props_of(case),
         t if t.starts_with("syn-") => syntax::props_of(case),
         _ => vec![],
@@ -66,6 +68,7 @@ pub fn run_case(case: &Value) -> Vec<Obs> {
         "reader" => reader::replay(case),
         "session" => session::replay(case),
         "knowledge" => knowledge::replay(case),
+        "repl" => repl::replay(case),
         "timer" => timer::replay(case),
         t if t.starts_with("syn-") => syntax::replay(case),
         "mklist" => lists::replay_mklist(case),
